@@ -232,10 +232,26 @@ def find_competitions(w: Walker, kinds: Kinds = None) -> List[Competition]:
                         break
                     nl = w.loops[lid]
                     break
-                inner = e.guards[len(li.guards) + 1:]
+                inner = []
+                for g, pol in e.guards[len(li.guards) + 1:]:
+                    if pol and g[0] == "and":
+                        inner.extend((x, True) for x in g[1])
+                    else:
+                        inner.append((g, pol))
+                inner = tuple(inner)
                 comp.updates.append(UpdateSite(e, e.args[0], e.args[1], inner, nl))
         comps.append(comp)
     return comps
+
+
+def nonempty_guard(g: Term, pol: bool, heap: Term) -> bool:
+    """Is (g, pol) the test `heap is not empty` in one of its spellings?"""
+    t = g if pol else mk_not(g)
+    if t == ("not", ("call", ("attr", heap, "is_empty"), (), ())):
+        return True
+    last = ("attr", heap, "last")
+    return t in (("cmp", "<", ("const", -1), last), ("cmp", "<=", ("const", 0), last),
+                 ("cmp", "!=", *sorted([("const", -1), last], key=repr)))
 
 
 def acceptance(comp: Competition, u: UpdateSite) -> Optional[Tuple[Term, str, int]]:
@@ -354,7 +370,7 @@ def loop_signature(comp: "Competition", lo: int = None, hi: int = None) -> List[
     for e in w.events:
         if e.seq < first or e.seq > last:
             continue
-        if e.kind == "bind":
+        if e.kind in ("bind", "return") or (e.kind == "call" and e.name == "<inline>"):
             continue
         if e.kind == "call" and e.target is not None and show(e.target).startswith(("logger.", "range", "time.")):
             continue
